@@ -234,13 +234,14 @@ def run_helpers(_):
 
 def run_sampler_dtypes(arg):
     """dtype of every population a sampler builds, restores or returns."""
-    sampler, ns, dt = arg
+    sampler, ns, dt = arg[:3]
+    cb = arg[3] if len(arg) > 3 else None
     from env import resume_harness as rh
 
     r = Report()
     cfg = {"sampler": sampler, "N": 8, "opts": {"adaptive": True, "target_efficiency": 0.8}, "cadence": 1, "n_final": 10,
-           "precond": "none", "seed": 0, "ns": ns, "dtype": dt}
-    case = {"sampler": sampler, "ns": ns, "dtype": dt}
+           "precond": "none", "seed": 0, "ns": ns, "dtype": dt, "callback_dtype": cb}
+    case = {"sampler": sampler, "ns": ns, "dtype": dt, "callback_dtype": cb}
     r.case(explorer.digest(case), nontrivial=True)
     want = dt if dt is not None else ("float32" if ns == "torch" else "float64")
 
@@ -283,23 +284,28 @@ def run_sampler_dtypes(arg):
     from env.targets import Monitor
 
     p = rh.problem("none")
-    for out_ns in NS:
+    for out_ns in NS + (None,):
         c2 = dict(case, sampler="importance", out_ns=out_ns)
         r.case(explorer.digest(c2), nontrivial=out_ns != ns)
         try:
             mon = Monitor(p["like"], p["prior"], ns)
+            mon.ret_dtype = cb
             flow = AnalyticFlow(2, seed=1, xp_name=ns, dtype=get_dtype(ns, dt), **p["flow"])
             a = Aspire(log_likelihood=mon.log_likelihood, log_prior=mon.log_prior, dims=2, parameters=p["parameters"],
                        prior_bounds=p["bounds"], flow=flow, xp=get_xp(ns), dtype=get_dtype(ns, dt))
-            s = a.sample_posterior(n_samples=5, sampler="importance", xp=get_xp(out_ns))
+            s = a.sample_posterior(n_samples=5, sampler="importance", xp=get_xp(out_ns) if out_ns else None)
         except Exception as e:
             from env import exc_site
 
             r.violation(f"C15/sample_posterior-xp/raises/{type(e).__name__}/{ns}->{out_ns}/{exc_site(e)}", repr(e)[:200], c2)
             continue
-        got = width(s.x)
-        if got != want:
-            r.violation(f"C15/sample_posterior-xp/width/{ns}->{out_ns}/requested-{dt}/got-{got}", {"got": got}, c2)
+        for fld in ("x", "log_likelihood", "log_prior", "log_q", "log_w"):
+            got = width(getattr(s, fld))
+            if got != want:
+                r.violation(f"C15/sample_posterior-xp/width/{ns}->{out_ns}/requested-{dt}/got-{got}", {"got": got, "field": fld}, c2)
+                break
+        if out_ns is None:
+            continue
         mod = type(s.x).__module__
         if not ((out_ns == "numpy" and mod.startswith("numpy")) or (out_ns == "torch" and mod.startswith("torch")) or (out_ns == "jax" and "jax" in mod)):
             r.violation(f"C15/sample_posterior-xp/array-type/{ns}->{out_ns}", mod, c2)
@@ -362,6 +368,9 @@ def run(tier, seed, workers):
         for ns in ("numpy", "torch", "jax") if (tier == "thorough" and sampler in ("smc", "emcee_smc")) else ("numpy", "torch"):
             for dt in ("float32", "float64"):
                 jobs.append(("run_sampler_dtypes", (sampler, ns, dt)))
+                # user callables that return the *other* float width (e.g. a NumPy likelihood always returns float64)
+                other = "float64" if dt == "float32" else "float32"
+                jobs.append(("run_sampler_dtypes", (sampler, ns, dt, other)))
     jobs.append(("run_flow_outputs", "zuko"))
     jobs.append(("run_flow_outputs", "flowjax"))
     for d in pmap("checks.c15", "dispatch", jobs, workers):
@@ -378,5 +387,5 @@ def replay(case):
     elif "backend" in case:
         r.merge(run_flow_outputs(case["backend"]))
     else:
-        r.merge(run_sampler_dtypes((case["sampler"] if case["sampler"] != "importance" else "smc", case["ns"], case["dtype"])))
+        r.merge(run_sampler_dtypes((case["sampler"] if case["sampler"] != "importance" else "smc", case["ns"], case["dtype"], case.get("callback_dtype"))))
     return r
